@@ -93,13 +93,15 @@ Definition cg_run (A : V -> V) (b x : V) (niter : nat) : list cgst :=
   let s := cg_init A b x in
   if cg_rr s =? nzero then [] else otrace (cg_step A) niter s.
 
-(* conjugate_gradient_normal *)
-Record cgnst := { n_x : V; n_d : W; n_p : V; n_s : V; n_ss : T }.
-Definition cgn_init (A : V -> W) (At : W -> V) (b : W) (x : V) : cgnst :=
+(* conjugate_gradient_normal.  [eps2] is np.finfo(float).eps ** 2 = 2^-104: the loop returns once
+   |A^T d|^2 has dropped to eps2 times its initial value (`sqnorm_s_old <= sqnorm_s_stop`). *)
+Record cgnst := { n_x : V; n_d : W; n_p : V; n_s : V; n_ss : T; n_stop : T }.
+Definition cgn_init (A : V -> W) (At : W -> V) (eps2 : T) (b : W) (x : V) : cgnst :=
   let d := addW b (scalW (- none_) (A x)) in
   let p := At d in
-  {| n_x := x; n_d := d; n_p := p; n_s := p; n_ss := ipV p p |}.
+  {| n_x := x; n_d := d; n_p := p; n_s := p; n_ss := ipV p p; n_stop := ipV p p * eps2 |}.
 Definition cgn_step (A : V -> W) (At : W -> V) (s : cgnst) : option cgnst :=
+  if n_ss s <=? n_stop s then None else
   let q := A (n_p s) in
   let qq := ipW q q in
   if qq =? nzero then None else
@@ -109,9 +111,9 @@ Definition cgn_step (A : V -> W) (At : W -> V) (s : cgnst) : option cgnst :=
   let s' := At d' in
   let ss' := ipV s' s' in
   let b := ss' / n_ss s in
-  Some {| n_x := x'; n_d := d'; n_p := addV s' (scalV b (n_p s)); n_s := s'; n_ss := ss' |}.
-Definition cgn_run (A : V -> W) (At : W -> V) (b : W) (x : V) (niter : nat) : list cgnst :=
-  otrace (cgn_step A At) niter (cgn_init A At b x).
+  Some {| n_x := x'; n_d := d'; n_p := addV s' (scalV b (n_p s)); n_s := s'; n_ss := ss'; n_stop := n_stop s |}.
+Definition cgn_run (A : V -> W) (At : W -> V) (eps2 : T) (b : W) (x : V) (niter : nat) : list cgnst :=
+  otrace (cgn_step A At) niter (cgn_init A At eps2 b x).
 
 (* ------------------------------------------------------------------ *)
 (* power_method_opnorm, un-normalised form.  The code iterates
@@ -347,6 +349,22 @@ Fixpoint sd_loop (f : V -> T) (grad : V -> V) (tau discount : T) (mni : nat) (es
           let '(tr, e) := sd_loop f grad tau discount mni estimate tol k (nabs step) x' in
           (x' :: tr, e)
       | e => ([], SdLs e)
+      end
+  end.
+(* the alpha the line-search OBJECT holds when the run above ends (self.alpha = |alpha| after every accepted
+   step): a later run that reuses the object with estimate_step=True starts from it -- and from nothing else
+   (the object caches no function value: fx is evaluated at the point it is called with) *)
+Fixpoint sd_alpha_after (f : V -> T) (grad : V -> V) (tau discount : T) (mni : nat) (estimate : bool)
+    (tol : T) (fuel : nat) (alpha_st : T) (x : V) : T :=
+  match fuel with
+  | O => alpha_st
+  | S k =>
+      let g := grad x in
+      let dd := - ipV g g in
+      if nabs dd <? tol then alpha_st else
+      match bt_search f tau discount mni estimate alpha_st x (scalV (- none_) g) dd with
+      | LsOk step => sd_alpha_after f grad tau discount mni estimate tol k (nabs step) (addV x (scalV (- step) g))
+      | _ => alpha_st
       end
   end.
 End Generic.
